@@ -41,6 +41,10 @@ PAT_REPL = [
     ("{{o}}.m({{x}})", ["m({{o}}, {{x}})", "{{o}}.m({{x}})"]),
     ("not {{x}}", ["neg({{x}})", "not {{x}}"]),
     ("({{e}} for {{i}} in {{it}})", ["({{e}} for {{i}} in sorted({{it}}))", "[{{e}} for {{i}} in {{it}}]", "({{e}} for {{i}} in {{it}})"]),
+    # one wildcard used twice: both occurrences must be the same TREE (added after the seeded change C14-constant-consistency-by-value)
+    ("{{a}} == {{a}}", ["True", "{{a}} == {{a}}", "same({{a}})"]),
+    ("f({{x}}, {{x}})", ["sq({{x}})", "f({{x}}, {{x}})"]),
+    ("d[{{k}}] = {{k}}", ["d.add({{k}})"]),
 ]
 SOURCES = [
     "q = 1\n", "f(a)\n", "y = f(a)\n", "f(f(a))\n", "f(a); f(b)\n", "f(a)\nf(b)\n",
@@ -56,6 +60,8 @@ SOURCES = [
     "f(a)\nf(b)\nf(c)  # pyrefact: ignore\n", "f(a)\nf(b)  # pyrefact: ignore", "z = f(a)\nif c:\n    z = f(b)  # pyrefact: ignore\n",
     "y = (\n    f(a)\n    + f(b)  # pyrefact: ignore\n)\n", "f(a); x = '\x0c'  # pyrefact: ignore\nf(b)\n", "x = '\u2028'; f(a)  # pyrefact: ignore\n",
     "f(a)  # pyrefact: ignore",
+    "print(1 == '1', x == x, x == 'x')\n", "y = (a == 'a') or ('a' == \"a\") or (a == a) or (1.0 == 1)\n",
+    "y = f(a, 'a') + f(a, a) + f('a', \"a\") + f(None, 'None')\n", "d['k'] = k\nd[k] = k\nd['k'] = 'k'\n",
     "y = sum(i for i in xs)\n", "y = sum((i for i in xs), 0)\n", "y = list(i * 2 for i in xs) + [0]\ng = (j for j in ys)\n",
     # literals inside the matched text whose spelling is restored after the rewrite (added after the seeded change
     # C14-multiline-literal-last-line-indent): multi-line, prefixed, concatenated, at column 0 and indented
